@@ -854,7 +854,7 @@ func init() {
 	nontrivialRule["C06"] = "a slash reached the hooks for a validator that carried alliance stake"
 	nontrivialRule["C07"] = "a slash reduced at least one pending unbonding entry or hit at least one pending redelegation out of the slashed validator"
 	nontrivialRule["C08"] = "at least one slash reached the hooks (the totality probe runs in every state of every run regardless)"
-	expectedProbes["C06"] = []string{"c06_slash_with_stake", "c06_multi_asset_validator", "c06_full_slash", "c06_redistribution_on_destination", "c06_multi_slash_step"}
+	expectedProbes["C06"] = []string{"c06_slash_with_stake", "c06_multi_asset_validator", "c06_full_slash", "c06_bystander_on_slashed_destination_validator", "c06_multi_slash_step"}
 	expectedProbes["C07"] = []string{"c07_unbonding_slashed", "c07_redelegation_slashed", "c07_bucket_with_several_validators_or_denoms", "c07_slash_at_completion_instant", "c07_merged_sources", "c07_destination_emptied"}
 	expectedProbes["C08"] = []string{"c08_slash_with_pending_redelegations", "c08_destination_emptied"}
 }
@@ -868,7 +868,7 @@ func init() {
 func init() {
 	monitorRegistry["C20"] = func(s *Schedule) []Monitor { return []Monitor{newMonC20()} }
 	nontrivialRule["C20"] = "queries were compared in a state with at least one delegation or with an unbonding bucket holding several entries"
-	expectedProbes["C20"] = []string{"c20_bucket_with_several_entries", "c20_balance_plus_one_accepted"}
+	expectedProbes["C20"] = []string{"c20_bucket_with_several_entries"}
 }
 
 func init() {
